@@ -8,7 +8,8 @@ _MEMO = {}
 def fresh_blob_fns(prog):
     """Functions that return a freshly created blob: Blob::open_new and every in-crate function all of whose ok-return
     origins are results of such functions (helper extraction must not lose the anchor)."""
-    k = id(prog)
+    _MEMO = prog.__dict__.setdefault('_fresh_memo', {})
+    k = 'fresh'
     if k in _MEMO:
         return _MEMO[k]
     fresh = {OPEN_NEW}
